@@ -2,7 +2,7 @@
 import json, os, sys, time, random, shutil
 
 import engine as E
-from catalogue import INSTANCES
+from catalogue import INSTANCES, EXTRA
 from plan import PLAN, SIDE
 
 
@@ -59,6 +59,30 @@ def run_property(prop, tier, seed, replay_file=None):
     for entry in insts:
         name = entry if isinstance(entry, str) else entry[0]
         over = {} if isinstance(entry, str) else entry[1]
+        if name.startswith("extra:"):
+            # hand-written behaviours (what the model cannot express): replayed and validated like the others
+            ex = EXTRA[name[6:]]
+            c = dict(E.DEFAULTS)
+            c.update(ex["cfg"])
+            behs = ex["behaviours"]
+            trace, st = E.replay(behs, c, prop + "-" + name[6:], seed)
+            viols, consumed = E.validate(trace, prop + "-" + name[6:], parts=2)
+            new, listed = E.classify(viols, prop, known)
+            tot["behaviours"] += len(behs)
+            tot["runs"] += consumed
+            tot["hung"] += st["hung"]
+            per_instance.append(dict(instance=name, states=0, transitions=0, depth=0, emitted=len(behs), replayed=len(behs), validated=consumed,
+                                     steering_misses=0, tlc_wall_s=0, model_violates=False, timed_out=False,
+                                     other_property_violations=len([v for v in viols if v["p"] != prop]), shuffled=0))
+            E.log("%s: %d hand-written behaviours replayed and validated" % (name, consumed))
+            for v in new:
+                vdir = os.path.join(E.OUT, prop)
+                os.makedirs(vdir, exist_ok=True)
+                p = os.path.join(vdir, "violation-%d.json" % len(all_new))
+                json.dump(dict(property=prop, instance=c, instance_name=name, behaviour=behs[v["run"]], violation=v), open(p, "w"), indent=1)
+                all_new.append((v, p))
+            all_listed += listed
+            continue
         inst, emit, opts = INSTANCES[name]
         opts = dict(opts)
         opts.update(over)
